@@ -453,9 +453,20 @@ class Gen:
         n = self.r.choice([0, 1, 1, 2, 3])
         return [self.uniq_expr(min(depth, 1), self.r.choice(["int", "str", "int"])) for _ in range(n)]
 
+    RICH_TYPES = ["java.io.File", "java.util.Date", "java.math.BigDecimal", "Map.Entry", "java.util.List<String>", "int[]", "String[][]",
+                  "java.io.File[]", "Outer.Inner", "java.util.Map<String, java.util.List<Integer>>", "char", "byte", "float", "short", "var"]
+
     def emit_local(self, w, ind):
         r = self.r
         s = w.pos
+        if r.random() < 0.15:
+            # types written in other ways than a simple name: qualified, generic, array, primitive, var
+            ty = r.choice(self.RICH_TYPES)
+            nm = self.fresh(r.choice(["v", "n", "tmp"]))
+            init = " = null" if ty not in ("char", "byte", "float", "short", "var") else " = 0"
+            w.w(ty + " " + nm + init + ";")
+            self.ent("variable_declaration", s, w.pos, name=nm, dataType=ty, value=init[3:], scope="local", visibility="")
+            return
         ty = r.choice(["int", "int", "long", "String", "boolean", "double"])
         nm = self.fresh(r.choice(["v", "n", "tmp"]))
         mods = "final " if r.random() < 0.2 else ""
@@ -566,9 +577,12 @@ class Gen:
             mods.append("static")
         ty = r.choice(["int", "String", "boolean", "long", "Object"])
         nm = self.fresh(r.choice(["f", "field", "x"]))
+        rich = r.random() < 0.2
+        if rich:
+            ty = r.choice([t for t in self.RICH_TYPES if t != "var"])
         w.w(" ".join(mods) + (" " if mods else "") + ty + " " + nm)
         val = ""
-        if r.random() < 0.7:
+        if not rich and r.random() < 0.7:
             w.w(" = ")
             saved = self.int_vars
             self.int_vars = []
